@@ -62,6 +62,7 @@ def build(case):
     rows = [np.array(r).astype(dt) for r in case["rows"]]
     if case.get("swap") and dt.kind in "iu" and dt.itemsize > 1:
         rows = [r.astype(dt.newbyteorder()) for r in rows]        # non-native byte order
+        dt = dt.newbyteorder()
     v = case["variant"]
     order = case.get("order", "C")
 
